@@ -48,6 +48,10 @@ def raw_of(R):
 def make(ec, cf, pt, rep, p, order=None, gen=False):
     """A point object denoting pt in representation rep: 'inf', 'aff' (legacy Point), ('jac', z), 'negneg', 'jacgen'."""
     if pt is None:
+        # the identity: the INFINITY singleton, or a Jacobian object with Z = 0 ("any projective scaling" of the identity:
+        # (l^2, l^3, 0) and other triples with Z = 0 built through the public constructor)
+        if isinstance(rep, tuple) and rep[0] == "jinf":
+            return ec.PointJacobi(cf, rep[1] % p, rep[2] % p, 0, order)
         return ec.INFINITY
     x, y = pt
     if rep == "aff":
@@ -60,6 +64,10 @@ def make(ec, cf, pt, rep, p, order=None, gen=False):
         import pickle
         return pickle.loads(pickle.dumps(P))
     return P
+
+
+# forms of the identity operand: the singleton (twice as frequent) and Jacobian triples with Z = 0
+JINF = ["inf", ("jinf", 1, 1), "inf", ("jinf", 4, 8), ("jinf", 0, 1), ("jinf", 9, 27)]
 
 
 def y0_involved(p, a, pts, want):
@@ -96,8 +104,8 @@ def add_events(args):
             if npair % 3 == 1 and P is not None and Q is not None and ra != "aff" and rb != "aff":
                 oa = orders.setdefault(P, toy.t_order(P, p, a))
                 ob = 2 * orders.setdefault(Q, toy.t_order(Q, p, a)) if npair % 2 else None
-            A = make(ec, cf, P, ra if P is not None else "inf", p, oa)
-            B = make(ec, cf_twin if npair % 2 else cf, Q, rb if Q is not None else "inf", p, ob)
+            A = make(ec, cf, P, ra if P is not None else JINF[npair % len(JINF)], p, oa)
+            B = make(ec, cf_twin if npair % 2 else cf, Q, rb if Q is not None else JINF[(npair // 2) % len(JINF)], p, ob)
             tA, tB = triple(ec, cname, A), triple(ec, cname, B)
             want = toy.t_add(P, Q, p, a)
             ev("add", tA, tB, out_point(ec, lambda: A + B), [P, Q], want, ajac=isinstance(A, ec.PointJacobi))
@@ -110,6 +118,11 @@ def add_events(args):
                 eqv = {"ok": False, "exc": type(e).__name__}
             if not (A is ec.INFINITY and B is ec.INFINITY):
                 ev("eq", tA, tB, eqv, [P, Q], None)
+            if P is None and A is not ec.INFINITY:
+                # the Z = 0 identity under the unary operations
+                ev("double", tA, None, out_point(ec, lambda: A.double()), [P], None, ajac=False)
+                ev("neg", tA, None, out_point(ec, lambda: -A), [P], None)
+                ev("affine", tA, None, out_point(ec, lambda: A.to_affine()), [P], None)
         # unary operations on P in every representation of the first slot
         for ra in sorted({r[0] for r in repsets}, key=repr):
             A = make(ec, cf, P, ra if P is not None else "inf", p)
